@@ -255,6 +255,92 @@ class Body:
             return {Origin("taskctx", (bi,), proj)}
         return {Origin("call", (bi,), proj)}
 
+    # ---- must-moved analysis (which Drop terminators of the un-elaborated MIR are no-ops) -----------
+    def _moves_defs(self, blk):
+        """sequence of ('move'|'def', local) effects of a block, statements then terminator"""
+        eff = []
+        for st in blk["s"]:
+            if st["k"] != "assign":
+                continue
+            r = st["r"]
+            ops = []
+            k = r["k"]
+            if k in ("use", "cast", "un", "repeat"):
+                ops = [r["o"]]
+            elif k == "bin":
+                ops = [r["a"], r["b"]]
+            elif k == "agg":
+                ops = r["ops"]
+            for o in ops:
+                if o.get("k") == "move":
+                    eff.append(("move", o["p"][0]))
+            if len(st["p"]) == 1:
+                eff.append(("def", st["p"][0]))
+        t = blk["t"]
+        if t["k"] in ("call", "tailcall"):
+            for o in t["args"]:
+                if o.get("k") == "move":
+                    eff.append(("move", o["p"][0]))
+        elif t["k"] == "yield":
+            if t["v"].get("k") == "move":
+                eff.append(("move", t["v"]["p"][0]))
+        return eff
+
+    def must_moved_at_term(self):
+        """bb -> set of locals that are definitely moved-out when the terminator of bb executes"""
+        if getattr(self, "_mm", None) is not None:
+            return self._mm
+        n = len(self.blocks)
+        ALL = None  # top
+        entry = [ALL] * n
+        entry[0] = frozenset()
+        effs = [self._moves_defs(b) for b in self.blocks]
+
+        def transfer(s, bi, with_term_def=True):
+            s = set(s)
+            for kind, l in effs[bi]:
+                if kind == "move":
+                    s.add(l)
+                else:
+                    s.discard(l)
+            return s
+        work = [0]
+        out_cache = {}
+        while work:
+            bi = work.pop()
+            if entry[bi] is ALL:
+                continue
+            out = transfer(entry[bi], bi)
+            t = self.blocks[bi]["t"]
+            # the destination of a call is (re)defined on the normal edge
+            for s in self.succs(bi, unwind=False):
+                if self.blocks[s]["c"]:
+                    continue
+                o2 = set(out)
+                if t["k"] == "call" and len(t["dest"]) == 1 and s == t.get("target"):
+                    o2.discard(t["dest"][0])
+                if t["k"] == "yield" and len(t["resume_arg"]) == 1 and s == t.get("resume"):
+                    o2.discard(t["resume_arg"][0])
+                new = frozenset(o2) if entry[s] is ALL else frozenset(entry[s] & o2)
+                if entry[s] is ALL or new != entry[s]:
+                    entry[s] = new
+                    work.append(s)
+        res = {}
+        for bi in range(n):
+            if entry[bi] is ALL:
+                res[bi] = set()
+                continue
+            s = set(entry[bi])
+            for kind, l in effs[bi]:
+                # effects of the terminator's own argument moves do not matter for a Drop terminator
+                if kind == "move":
+                    s.add(l)
+                else:
+                    s.discard(l)
+            res[bi] = s
+        self._mm = res
+        return res
+
     # ---- helpers -------------------------------------------------------------------------------
     def call_at(self, o):
         return self.blocks[o.site[0]]["t"]
